@@ -625,7 +625,7 @@ func TestC10(t *testing.T) {
 		Level: "exploration",
 		Rule: "Four generators (class 'kind:*'): grammar sentences whose operand types are chosen independently of the symbol types (every lhs form x operator x literal kind, set functions on non-set symbols, unknown/dotted/map symbols, huge/fractional/exponent numbers in skip/limit, leap-second and odd-offset datetimes); token-level mutants of them (delete, duplicate, swap, splice, varying separators); bounded-exhaustive strings of <= 3 (quick) / <= 4 (thorough) tokens over a 41-token alphabet; random rune strings; plus 'foreign' cases = a well-typed sentence with one character that occurs in no lexer rule inserted at a token boundary. " +
 			"Oracle: no panic in ast.Parse (bolt and in-memory symbol types), exactly one of (query, error), no panic evaluating any parsed query via QueryIds / IterateIds / in-memory EvalBool over an empty store, all-null rows and a rich dataset, nor in ValidateSymbolsArePublic and ObjectStore.QueryEntities; a 'foreign' text must be rejected. " +
-			"Also generated: sub-query predicates and tails over the sub-query's own symbol table, a paging matrix with sort lists of up to 8 fields, evaluation through a caller-supplied tree-set cursor. " +
+			"Also generated: sub-query predicates and tails over the sub-query's own symbol table, a paging matrix with sort lists of up to 8 fields, evaluation through a caller-supplied tree-set cursor. Also: filters with 33-70 distinct symbols around set functions / dotted paths / sub-queries, int32 map elements, a fixed set of texts parsed from twelve goroutines at once. " +
 			"Non-trivial: the input got past the syntax stage (accepted, or rejected by typing) or is a foreign-character injection. Distinct by hash of the case JSON.",
 		Assumptions: []string{"termination is only observed as 'finished within the test deadline' (exit 2 otherwise, not a verdict)"},
 		Gen:         genC10, Run: runC10,
